@@ -64,6 +64,11 @@ func propC03(c *Ctx) {
 			c.violate(Violation{Suite: s.Name, Kind: "property", Index: i, Class: "panic:encode", Desc: "Encode panicked: " + er.val, Input: line, Expected: "ok", Actual: "panic"})
 			continue
 		}
+		if rr := encodeReused(buildMsg(sx)); rr != er {
+			c.violate(Violation{Suite: s.Name, Kind: "property", Index: i, Class: "encode-depends-on-object-history",
+				Desc:  "Encode of a message object that carried other messages before (fields and payload list reassigned) differs from Encode of a new object with the same fields and payloads (replay: re-run of the suite with this seed)",
+				Input: line, Expected: clip(er.String()), Actual: clip(rr.String())})
+		}
 		if er.kind != "ok" {
 			continue // beyond the 16-bit limits: outside the domain (the model must agree on that: correspondence)
 		}
